@@ -197,9 +197,10 @@ def replicaText (d : Done) (c : Comp) (i : Nat) (s : S) : S :=
 
 /-! ### aggregator -/
 
-def isPathChar (c : Char) : Bool := isWord c || c == '.' || c == '*'
+def isPathChar (c : Char) : Bool :=
+  isWord c || c == '.' || c == '*' || c == '+' || c == '~' || c == '@' || c == '-'
 
-/-- number of characters matched by `(?:/[\w.*]+)*` at the head of the string -/
+/-- number of characters matched by `(?:/[\w.*+~@-]+)*` at the head of the string -/
 def pathLen : Nat → S → Nat
   | 0, _ => 0
   | f + 1, '/' :: rest =>
@@ -222,7 +223,7 @@ def aggExpand (reps : List S) (after : S) : S × Nat :=
 def firstMatchAgg (keys : List (S × List S)) (s : S) : Option (S × List S) :=
   keys.find? fun kv => kv.1.isPrefixOf s && followOk (s.drop kv.1.length)
 
-/-- `expression.sub(expand, string)` for `(?<![\w.#/ -])(k1|k2|…)(?!\w)((?:/[\w.*]+)+,*)?`
+/-- `expression.sub(expand, string)` for `(?<![\w.#/ -])(k1|k2|…)(?!\w)((?:/[\w.*+~@-]+)+,*)?`
 (no space in the character class) -/
 def aggScan (keys : List (S × List S)) : Nat → Option Char → S → S
   | _, _, [] => []
